@@ -506,6 +506,22 @@ def b_validator_table(S):
             else:
                 raise Untranslatable(f"cls.ERROR = {v}")
     out += "def underlap_written : List String := [" + ", ".join(f'"{x}"' for x in written) + "]\n"
+    # the empty-target-area exit of run_validation writes EmptyTargetAreaValidator.ERROR into every row (shape-checked)
+    out += f'def empty_area_error : String := "{info("EmptyTargetAreaValidator")[1]}"\n'
+    rv = find_func(ast.parse(S[TVAL]), "Validation.run_validation")
+    ifs = [n for n in ast.walk(rv) if isinstance(n, ast.If) and "is_empty_area" in ast.unparse(n.test)]
+    if len(ifs) != 1 or ast.unparse(ifs[0].test) != "not allow_empty_area and is_empty_area(area=self.area, traces=self.traces)":
+        raise Untranslatable("empty-area exit of run_validation not found")
+    body = ifs[0].body
+    asg = [st for st in body if isinstance(st, ast.Assign)]
+    ret = [st for st in body if isinstance(st, ast.Return)]
+    ok = (len(ret) == 1 and isinstance(body[-1], ast.Return) and ast.unparse(ret[0].value) == "empty_gdf"
+          and any(ast.unparse(a.targets[0]) == "empty_gdf[self.ERROR_COLUMN]"
+                  and ast.unparse(a.value) == "[(trace_validators.EmptyTargetAreaValidator.ERROR,)] * empty_gdf.shape[0]" for a in asg)
+          and any(ast.unparse(a) .startswith("empty_gdf: gpd.GeoDataFrame = self.traces.copy()") for a in body if isinstance(a, ast.AnnAssign)))
+    if not ok:
+        raise Untranslatable("empty-area exit does not return a copy carrying the empty-area error in every row")
+    out += "/-- the exit returns `self.traces.copy()` with `(EmptyTargetAreaValidator.ERROR,)` in every row (shape-checked) -/\ndef empty_area_exit_writes_error : Bool := true\n"
     return out
 
 
@@ -787,7 +803,7 @@ ITEMS: List[Item] = [
     Item("DefaultAzimuthSets", NETWORK, ["C15"], b_default_azimuth_sets),
     Item("CalcBins", AZIMUTH, ["C15"], b_calc_bins),
     Item("JunctionShift", GENERAL, ["C02", "C16"], b_junction_shift),
-    Item("ValidatorTable", TVALS, ["C09", "C13", "C02"], b_validator_table),
+    Item("ValidatorTable", TVALS, ["C09", "C13", "C02"], b_validator_table, extra_modules=[TVAL]),
     Item("ValidationDefaults", TVAL, ["C10", "C03", "C16"], b_validation_defaults),
     Item("CacheDecorated", GENERAL, ["C17"], b_cache_decorated, extra_modules=[m for m in ALL_MODULES if m != GENERAL]),
     Item("Grid", GRID, ["C18"], b_grid),
